@@ -263,7 +263,7 @@ Section ExprGood.
     assert (Hlt : blen bs < Z.of_nat (S (length bs))) by (unfold blen; lia).
     assert (Hfit : fits 1 (S (length bs))).
     { destruct HF as [Ha|Hd]; [left; exact Ha | right; unfold blen in *; lia]. }
-    destruct (proj1 (good_strict_read_expr (S (length bs)) 1 Hfit) bs Hlt) as [h1 h2 h3 h4]. split; assumption.
+    destruct (proj1 (good_strict_read_expr (S (length bs)) 1 Hfit) bs Hlt) as [h1 h2 h3]. split; assumption.
   Qed.
 End ExprGood.
 
@@ -275,8 +275,7 @@ Lemma good_lift {A} P H S (o : outcome A) : pure_out o -> good P H S (lift o).
 Proof.
   intros Hp bs. unfold lift. split.
   - intros t a rest. destruct o; intros [= <- ? ?]; subst; lia.
-  - intros t a rest. destruct o; intros [= <- ? ?]; constructor.
-  - intros t o' [= <- _]. left; reflexivity.
+  - intros t o' [= <- _]. constructor.
   - intros t o' [= _ <-]. destruct o; cbn in *; auto; contradiction.
 Qed.
 
@@ -495,15 +494,12 @@ Section DataGood.
     - (* char n *)
       destruct v as [[]|]; try (inversion H; subst; split; [constructor|]; intros p Hp; discriminate).
       unfold normalize_char in H.
-      destruct (blen s <? n).
+      destruct (char_count s <? n).
       + destruct (Z.ltb_spec u16_max n).
         * inversion H; subst. split; [constructor|]. intros p [= <-]. right. auto.
         * inversion H; subst. split; [constructor; [cbn; unfold u16_max in *; lia | constructor]|].
           intros p Hp. discriminate.
-      + destruct (n <? blen s).
-        * destruct (slice_to s n); inversion H; subst; (split; [constructor|]); intros p Hp; inversion Hp; subst.
-          right. auto.
-        * inversion H; subst. split; [constructor|]. intros p Hp. discriminate.
+      + destruct (n <? char_count s); inversion H; subst; (split; [constructor|]); intros p Hp; discriminate.
     - (* date *)
       destruct v as [[]|]; inversion H; subst; clear H; (split; [constructor|]); intros p Hp; try discriminate;
         apply of_parse_panic in Hp; destruct Hp as [Hr ->]; left; (split; [eexists; reflexivity|]); exists s; auto.
@@ -572,8 +568,8 @@ Section DataGood.
     destruct (normalize_row E (t_cols t) vals) as [tr o] eqn:En.
     destruct (normalize_row_spec _ _ _ _ En) as [Ht Ho].
     destruct o; split;
-      try (intros t0 a0 rest0 H; inversion H; subst; first [lia | apply Forall_ev_le_bound; exact Ht]);
-      try (intros t0 o0 H; inversion H; subst; first [apply but_last_of_all, Forall_ev_le_bound; exact Ht | exact Ho | exact I]).
+      try (intros t0 a0 rest0 H; inversion H; subst; lia);
+      try (intros t0 o0 H; inversion H; subst; first [apply Forall_ev_le_bound; exact Ht | exact Ho | exact I]).
   Qed.
 
   Lemma table_insert_cols t vals bs tr t' r :
@@ -594,9 +590,6 @@ Qed.
 
 Lemma limited_map ts : limited ts = existsb limited_cols (map t_cols ts).
 Proof. unfold limited. induction ts as [|t ts IH]; cbn; [reflexivity|]. now rewrite IH. Qed.
-Lemma zero_cols_map ts : zero_cols ts = existsb (fun c => (length c =? 0)%nat) (map t_cols ts).
-Proof. unfold zero_cols. induction ts as [|t ts IH]; cbn; [reflexivity|]. now rewrite IH. Qed.
-
 Lemma map_replace_nth {A B} (f : A -> B) n x (l : list A) y :
   nth_error l n = Some y -> f x = f y -> map f (replace_nth n x l) = map f l.
 Proof.
@@ -610,32 +603,24 @@ Proof.
   intros Hn Hl. unfold limited. apply existsb_exists. exists t. split; [|exact Hl].
   eapply nth_error_In; eauto.
 Qed.
-Lemma nth_error_zero ts i t : nth_error ts i = Some t -> length (t_cols t) = 0%nat -> zero_cols ts = true.
-Proof.
-  intros Hn Hl. unfold zero_cols. apply existsb_exists. exists t. split; [eapply nth_error_In; eauto|].
-  rewrite Hl. reflexivity.
-Qed.
-
 Section DataGood2.
   Variable E : env.
 
   Lemma good_read_rows t n :
-    good (pCols E (t_cols t)) (length (t_cols t) = 0%nat) False (read_rows E t n).
+    good (pCols E (t_cols t)) False False (read_rows E t n).
   Proof.
     unfold read_rows.
     destruct (Z.eqb_spec (Z.of_nat (length (t_cols t))) 0) as [Hz|Hnz].
-    - destruct (n <=? 0); [apply good_ret|].
-      destruct (spin_limit E <? n); [|apply good_ret].
-      apply good_stop; [reflexivity|]. cbn. lia.
+    - destruct (n <=? 0); [apply good_ret | apply good_fail].
     - set (ncols := Z.of_nat (length (t_cols t))) in *.
       assert (Hpos : 0 < ncols) by (unfold ncols in *; lia).
-      assert (Gv : good (pCols E (t_cols t)) (length (t_cols t) = 0%nat) False (read_value E)).
+      assert (Gv : good (pCols E (t_cols t)) False False (read_value E)).
       { eapply good_weaken; [| | |apply (good_read_value E False)]; [intros p Hp; left; exact Hp | tauto | tauto]. }
       apply (good_iter_inv _ _ _ (fun t' => t_cols t' = t_cols t)).
       + intros t' Ht'. apply good_bind; [apply good_loop; [exact Gv | apply (strict_read_value E False)]|].
         intros vals. eapply good_weaken; [| | |apply good_table_insert]; [rewrite Ht'; auto | tauto | tauto].
-      + intros t' Ht'. apply (strict_bind_l (pCols E (t_cols t)) (length (t_cols t) = 0%nat) False).
-        * apply (strict_loop_pos (pCols E (t_cols t)) (length (t_cols t) = 0%nat) False);
+      + intros t' Ht'. apply (strict_bind_l (pCols E (t_cols t)) False False).
+        * apply (strict_loop_pos (pCols E (t_cols t)) False False);
             [exact Hpos | exact Gv | apply (strict_read_value E False)].
         * intros vals. eapply good_weaken; [| | |apply good_table_insert]; [rewrite Ht'; auto | tauto | tauto].
       + intros t' bs tr t'' r Ht' Hb.
@@ -649,8 +634,7 @@ Section DataGood2.
   Lemma read_rows_cols t n bs tr t' r : read_rows E t n bs = (tr, Ok t' r) -> t_cols t' = t_cols t.
   Proof.
     unfold read_rows. destruct (Z.of_nat (length (t_cols t)) =? 0).
-    - destruct (n <=? 0); [intros H; inversion H; reflexivity|].
-      destruct (spin_limit E <? n); intros H; inversion H; reflexivity.
+    - destruct (n <=? 0); intros H; inversion H; reflexivity.
     - unfold iter. apply (iter_fuel_inv (fun t' => t_cols t' = t_cols t)); [|reflexivity].
       intros t0 bs0 tr0 t1 r0 Ht0 Hb.
       destruct (loop (Z.of_nat (length (t_cols t))) (read_value E) bs0) as [t1' o1] eqn:El.
@@ -661,11 +645,11 @@ Section DataGood2.
   Qed.
 
   Lemma good_read_table_data d :
-    good (pTabs E (d_tables d)) (zero_cols (d_tables d) = true) False (read_table_data E d)
+    good (pTabs E (d_tables d)) False False (read_table_data E d)
     /\ strict (read_table_data E d).
   Proof.
     assert (Gk : forall name row_count,
-      good (pTabs E (d_tables d)) (zero_cols (d_tables d) = true) False
+      good (pTabs E (d_tables d)) False False
         (match get_table_idx (d_tables d) name with
          | POk i =>
              match nth_error (d_tables d) i with
@@ -679,13 +663,12 @@ Section DataGood2.
         try apply good_fail; try apply good_unmodelled.
       destruct (nth_error (d_tables d) i) as [t|] eqn:En; [|apply good_fail].
       apply good_bind; [|intros; apply good_ret].
-      eapply good_weaken; [| | |apply good_read_rows]; [| |tauto].
-      - intros p [Hp|[Hp Hl]]; [left; exact Hp|]. right. split; [exact Hp|]. eapply nth_error_limited; eauto.
-      - intros Hz. eapply nth_error_zero; eauto. }
+      eapply good_weaken; [| | |apply good_read_rows]; [|tauto|tauto].
+      intros p [Hp|[Hp Hl]]; [left; exact Hp|]. right. split; [exact Hp|]. eapply nth_error_limited; eauto. }
     unfold read_table_data. split.
     - apply good_bind; [apply good_read_string|]. intros name.
       apply good_bind; [apply good_read_u64|]. intros rc. apply Gk.
-    - apply (strict_bind_l (pTabs E (d_tables d)) (zero_cols (d_tables d) = true) False);
+    - apply (strict_bind_l (pTabs E (d_tables d)) False False);
         [apply (strict_read_string (pT E) False False)|].
       intros name. apply good_bind; [apply good_read_u64|]. intros rc. apply Gk.
   Qed.
@@ -711,15 +694,26 @@ Section DataGood2.
     apply (map_replace_nth t_cols _ _ _ t En). eapply read_rows_cols; eauto.
   Qed.
 
-  Lemma good_read_data d :
-    good (pTabs E (d_tables d)) (zero_cols (d_tables d) = true) False (read_data E d).
+  Lemma pure_rebuild_indexes d : pure_out (rebuild_indexes d).
   Proof.
-    unfold read_data.
+    unfold rebuild_indexes.
+    assert (H : pure_out (rebuild_all d (d_indexes d))).
+    { induction (d_indexes d) as [|i l IH]; cbn [rebuild_all]; [exact I|].
+      unfold rebuild_index. destruct (index_table_idx d (i_table i)); [|exact I].
+      destruct (nth_error (d_tables d) n); [|exact I].
+      destruct (columns_idx (t_cols t) (i_cols i)); try exact I.
+      destruct (rebuild_all d l); cbn in *; auto. }
+    destruct (rebuild_all d (d_indexes d)); cbn in *; auto.
+  Qed.
+
+  Lemma good_read_data d :
+    good (pTabs E (d_tables d)) False False (read_data E d).
+  Proof.
+    unfold read_data. apply good_bind; [|intros d'; apply good_lift, pure_rebuild_indexes].
     apply (good_iter_inv _ _ _ (fun d' => map t_cols (d_tables d') = map t_cols (d_tables d))).
-    - intros d' Hd'. eapply good_weaken; [| | |apply (proj1 (good_read_table_data d'))]; [| |tauto].
-      + intros p [Hp|[Hp Hl]]; [left; exact Hp|]. right. split; [exact Hp|].
-        rewrite limited_map in *. rewrite <- Hd'. exact Hl.
-      + intros Hz. rewrite zero_cols_map in *. rewrite <- Hd'. exact Hz.
+    - intros d' Hd'. eapply good_weaken; [| | |apply (proj1 (good_read_table_data d'))]; [|tauto|tauto].
+      intros p [Hp|[Hp Hl]]; [left; exact Hp|]. right. split; [exact Hp|].
+      rewrite limited_map in *. rewrite <- Hd'. exact Hl.
     - intros d' _. apply (proj2 (good_read_table_data d')).
     - intros d1 bs t d2 r Hd1 Hb. apply read_table_data_cols in Hb. congruence.
     - reflexivity.
@@ -745,19 +739,19 @@ Theorem catalog_phase_good E : good (pT E) False True (catalog_phase E).
 Proof. apply good_of_good_lt. intros F. apply catalog_phase_good_lt. left. exact I. Qed.
 
 Lemma load_good_lt E allowS F :
-  allowS \/ F <= stack_limit E -> good_lt (pData E) True allowS F (load_binary E).
+  allowS \/ F <= stack_limit E -> good_lt (pData E) False allowS F (load_binary E).
 Proof.
   intros HF bs Hb.
-  assert (G : good_at (pData E) True allowS (bind (catalog_phase E) (read_data E)) bs).
+  assert (G : good_at (pData E) False allowS (bind (catalog_phase E) (read_data E)) bs).
   { apply good_at_bind.
-    - pose proof (catalog_phase_good_lt E allowS F HF bs Hb) as [g1 g2 g3 g4]. split; auto.
-      intros t o Ho. specialize (g4 t o Ho). destruct o; cbn in *; auto. right. right. exact g4.
+    - pose proof (catalog_phase_good_lt E allowS F HF bs Hb) as [g1 g2 g3]. split; auto.
+      intros t o Ho. specialize (g3 t o Ho). destruct o; cbn in *; auto. right. right. exact g3.
     - intros t d r _. eapply good_weaken; [| | |apply good_read_data]; [|tauto|tauto].
       intros p [Hp|[[->| ->] _]]; [right; right; exact Hp | left; reflexivity | right; left; reflexivity]. }
-  destruct G as [g1 g2 g3 g4]. split; intros *; rewrite load_split; [apply g1 | apply g2 | apply g3 | apply g4].
+  destruct G as [g1 g2 g3]. split; intros *; rewrite load_split; [apply g1 | apply g2 | apply g3].
 Qed.
 
-Theorem load_good E : good (pData E) True True (load_binary E).
+Theorem load_good E : good (pData E) False True (load_binary E).
 Proof. apply good_of_good_lt. intros F. apply load_good_lt. left. exact I. Qed.
 
 (** a file shorter than the nesting depth the stack can hold cannot overflow it *)
@@ -776,19 +770,19 @@ Proof.
   exact (g_tol _ _ _ _ _ (load_good E bs) _ _ El).
 Qed.
 
-(** every allocation request except possibly the last event of the trace is within the input
-    length (or the CHAR padding maximum); when the load succeeds, every request is *)
-Theorem alloc_bounded_but_last E bs : but_last (bound bs) (load_trace E bs).
+(** ... and no byte string makes it spin: the only input-free loop (rows of a table without columns)
+    is rejected *)
+Theorem decode_never_hangs E bs : load_result E bs <> Hang.
+Proof.
+  unfold load_result. destruct (load_binary E bs) as [t o] eqn:El. cbn [snd]. intros ->.
+  exact (g_tol _ _ _ _ _ (load_good E bs) _ _ El).
+Qed.
+
+(** every buffer the loader fills is within max(file size, 65535), whatever the outcome *)
+Theorem alloc_bounded E bs : Forall (ev_le (bound bs)) (load_trace E bs).
 Proof.
   unfold load_trace. destruct (load_binary E bs) as [t o] eqn:El. cbn [fst].
   exact (g_alloc _ _ _ _ _ (load_good E bs) _ _ El).
-Qed.
-
-Theorem alloc_bounded_on_success E bs d rest :
-  load_result E bs = Ok d rest -> Forall (ev_le (bound bs)) (load_trace E bs).
-Proof.
-  unfold load_result, load_trace. destruct (load_binary E bs) as [t o] eqn:El. cbn [fst snd]. intros ->.
-  exact (g_alloc_ok _ _ _ _ _ (load_good E bs) _ _ _ El).
 Qed.
 
 (** which panics can come out of [load_binary], and from where *)
@@ -806,20 +800,8 @@ Proof.
   - inversion H; subst. left. exact (g_tol _ _ _ _ _ (catalog_phase_good E bs) _ _ Ec).
 Qed.
 
-Theorem load_hang_classified E bs t :
-  load_binary E bs = (t, Hang) ->
-  exists t1 d r, catalog_phase E bs = (t1, Ok d r) /\ zero_cols (d_tables d) = true.
-Proof.
-  rewrite load_split. intros H.
-  destruct (catalog_phase E bs) as [t1 o1] eqn:Ec. rewrite (bind_run _ _ _ _ _ Ec) in H.
-  destruct o1 as [d r| | | | | |]; try (inversion H; fail).
-  - destruct (read_data E d r) as [t2 o2] eqn:Ed. inversion H; subst.
-    exists t1, d, r. split; [reflexivity|]. exact (g_tol _ _ _ _ _ (good_read_data E d r) _ _ Ed).
-  - inversion H; subst. exfalso. exact (g_tol _ _ _ _ _ (catalog_phase_good E bs) _ _ Ec).
-Qed.
-
 (** the side-conditioned totality statement: with total temporal parsers, a file whose catalog has
-    no length-limited string column never panics, and one without zero-column tables never spins *)
+    no length-limited string column never panics *)
 Theorem decode_total E bs :
   ~ temporal_panics E ->
   (forall t1 d r, catalog_phase E bs = (t1, Ok d r) -> limited (d_tables d) = false) ->
@@ -830,15 +812,7 @@ Proof.
   rewrite (Hl _ _ _ Hc) in Hlim. discriminate.
 Qed.
 
-Theorem decode_never_hangs E bs :
-  (forall t1 d r, catalog_phase E bs = (t1, Ok d r) -> zero_cols (d_tables d) = false) ->
-  load_result E bs <> Hang.
-Proof.
-  intros Hz Hr. unfold load_result in Hr. destruct (load_binary E bs) as [t o] eqn:El. cbn [snd] in Hr. subst o.
-  destruct (load_hang_classified _ _ _ El) as (t1 & d & r & Hc & Hzc). rewrite (Hz _ _ _ Hc) in Hzc. discriminate.
-Qed.
-
-(** * witnesses: the unconditional statements are false of the faithful model *)
+(** * witnesses: the unconditional no-panic statement is false of the faithful model *)
 Definition E0 : env := canon_env 1000 65536.
 
 (** [VARCHAR(1)] column, value "e-acute" (2 bytes): [&s[..1]] panics inside [Table::insert] *)
@@ -861,21 +835,21 @@ Definition file_char_width : bytes :=
 Lemma decode_total_refuted_width : load_result E0 file_char_width = Panic PFmtWidth.
 Proof. vm_compute. reflexivity. Qed.
 
-(** a table without columns and a row count of 2^64-1: the row loop never touches the input *)
+(** the two files that used to defeat the loader are now rejected cleanly:
+    a table without columns claiming 2^64-1 rows, and a 4 GiB string prefix in a 24-byte file *)
 Definition file_zero_cols : bytes :=
   write_header ++ w_u32 0 ++ w_u32 0 ++ w_u32 1
   ++ w_string (lit "Z") ++ w_u32 0
   ++ w_u32 0 ++ w_u32 0
   ++ w_string (lit "Z") ++ w_u64 18446744073709551615.
 
-Lemma decode_hang_refuted : load_result E0 file_zero_cols = Hang /\ blen file_zero_cols = 58.
+Lemma zero_cols_rejected : load_result E0 file_zero_cols = Err (ECatalog 7) /\ blen file_zero_cols = 58.
 Proof. vm_compute. split; reflexivity. Qed.
 
-(** a 24-byte file whose first string prefix is 0xFFFFFFFF: 4 GiB requested before anything is read *)
 Definition file_big_prefix : bytes := write_header ++ w_u32 1 ++ w_u32 4294967295.
 
-Lemma alloc_bounded_refuted :
-  blen file_big_prefix = 24 /\ load_trace E0 file_big_prefix = [Alloc 4294967295]
+Lemma big_prefix_rejected :
+  blen file_big_prefix = 24 /\ load_trace E0 file_big_prefix = [Alloc 0]
   /\ load_result E0 file_big_prefix = Err EEof.
 Proof. vm_compute. repeat split; reflexivity. Qed.
 
@@ -1138,27 +1112,11 @@ Example stack_overflow_reachable_example :
   load_result (canon_env 3 65536) (overflow_file 3) = StackOverflow /\ blen (overflow_file 3) = 54.
 Proof. exact (stack_overflow_reachable (canon_env 3 65536) ltac:(cbn; lia)). Qed.
 
-(** * the index-contents defect of the binary loader, on the model *)
-(** what [Database::create_index] computes when the rows are present (the JSON loader's order, and
-    what the database held before it was saved) *)
-Definition rebuild_index (d : db) (i : index) : index :=
-  match index_table_idx d (i_table i) with
-  | Some ti =>
-      match nth_error (d_tables d) ti with
-      | Some t =>
-          match columns_idx (t_cols t) (i_cols i) with
-          | POk idxs => mkIndex (i_name i) (i_table i) (i_unique i) (i_cols i) (entries_from (t_rows t) idxs 0)
-          | _ => i
-          end
-      | None => i
-      end
-  | None => i
-  end.
+(** * index contents after a load *)
+(** the database with every user index (re)built from the rows of its table: what
+    [Database::create_index] computes, and what the loader's final rebuild leaves *)
 Definition with_indexes_built (d : db) : db :=
-  mkDb (d_schemas d) (d_roles d) (d_tables d) (map (rebuild_index d) (d_indexes d)) (d_triggers d).
-Definition clear_entries (d : db) : db :=
-  mkDb (d_schemas d) (d_roles d) (d_tables d)
-       (map (fun i => mkIndex (i_name i) (i_table i) (i_unique i) (i_cols i) []) (d_indexes d)) (d_triggers d).
+  match rebuild_indexes d with Ok d' _ => d' | _ => d end.
 
 (** table T(A INTEGER) with rows 1, 2, 3 and index IA on A *)
 Definition db_indexed : db :=
@@ -1167,14 +1125,8 @@ Definition db_indexed : db :=
                    [[BV (VInteger 1)]; [BV (VInteger 2)]; [BV (VInteger 3)]] 0]
           [mkIndex (lit "IA") (lit "T") false [(lit "A", 0)] []] []).
 
-(** the full round-trip statement (same index CONTENTS after load) is false of the faithful model:
-    the saved database has three index entries, the loaded one none *)
-Lemma file_roundtrip_refuted :
+(** the former witness of the empty-index defect now round-trips INCLUDING the index contents *)
+Lemma file_roundtrip_indexed :
   map (fun i => length (i_entries i)) (d_indexes db_indexed) = [3%nat]
-  /\ load_result E0 (save_binary db_indexed) = Ok (clear_entries db_indexed) []
-  /\ clear_entries db_indexed <> db_indexed.
-Proof.
-  split; [vm_compute; reflexivity|]. split; [vm_compute; reflexivity|].
-  intros H. apply (f_equal (fun d => map (fun i => length (i_entries i)) (d_indexes d))) in H.
-  vm_compute in H. discriminate.
-Qed.
+  /\ load_result E0 (save_binary db_indexed) = Ok db_indexed [].
+Proof. split; vm_compute; reflexivity. Qed.
